@@ -704,9 +704,8 @@ def check_C11(tier):
                     e = json.loads(line)
                     evals += 1
                     if e["lib"]:
-                        for k in ("fp", "fms"):
-                            for pos in e["valid"][k]:
-                                own.add((e["role"], pos))
+                        # the position the role's scheme selects in this packet (whether or not a valid digest sits there)
+                        own.add((e["role"], (sum(e["ob"]) % 728) + 12 if e["role"] == "client" else (sum(e["ob2"]) % 728) + 776))
                     else:
                         crafted.add((e["role"], e["dpos"]))
                 elif '"P2Facts"' in line:
@@ -718,7 +717,7 @@ def check_C11(tier):
     # own packets: the fill hook is re-seeded until every one of the 728 offsets of each role's scheme has been generated once
     out.cov["own_offsets_exhaustive"] = len(own) >= 1456
     out.cov["exhaustive"] = False
-    if len(own) < 1456:
+    if len(own) < 1456 and not out.violations:
         raise ToolError("C11: the own-offset sweep did not reach all 2 x 728 digest positions (%d)" % len(own))
     sample_events(out, logs[0][0], ("P1Facts", "P2Facts"), n=3)
     out.assumptions = ["HMAC-SHA256 is an uninterpreted primitive for the specification: the harness' own implementation (FIPS 180-4 / RFC 2104, "
